@@ -20,7 +20,7 @@ ASSUMPTIONS = [
     'the number of *_value_changed notifications is not asserted (not stated); notify is only exercised',
     'evaluated at quiescence of a manager stepped by tick() from the checking thread',
 ]
-REQUIRED = ['base_exception_raised', 'raise_plus_generator', 'generator_raises_at_step', 'multi_value_list', 'single_value_scalar', 'success_requested',
+REQUIRED = ['falsy_result', 'handler_resumed_from_call', 'base_exception_raised', 'raise_plus_generator', 'generator_raises_at_step', 'multi_value_list', 'single_value_scalar', 'success_requested',
             'failure_requested', 'notify_requested', 'success_channels_override', 'child_event_from_handler', 'two_raises_one_event']
 REQUIRED_OBLIGATIONS = ['VALUE', 'ERRORS_FLAG', 'EXCEPTION_EVENTS', 'FAILURE_EVENTS', 'SUCCESS_ONCE_IFF', 'SUCCESS_AFTER_HANDLERS',
                         'ALL_HANDLERS_RAN', 'LATER_EVENTS_RUN']
@@ -45,6 +45,13 @@ SHAPES = {
     'GX0': (True, [['raise']]),
     'GX1': (True, [['yield', 'a'], ['raise']]),
     'GX2': (True, [['yield', None], ['yield', 'b'], ['raise']]),
+    # falsy but non-None results are results
+    'R0': (False, [['retlit', 0]]),
+    'G1f': (True, [['yieldlit', ''], ['yield', 'b']]),
+    # handlers suspended in call()/wait() on another event ('k' has one plain handler), resumed, then yielding None / a value / a falsy value
+    'GCn': (True, [['call', {'name': 'k'}], ['yield', None], ['yield', 'a']]),
+    'GCv': (True, [['call', {'name': 'k'}], ['yieldlit', False]]),
+    'GWn': (True, [['wait', {'name': 'k'}], ['yield', None]]),
     # exceptions that derive from BaseException only (GeneratorExit-like): still "a handler that raised"
     'XB': (False, [['raise', 'base']]),
     'GXB1': (True, [['yield', 'a'], ['raise', 'base']]),
@@ -54,7 +61,10 @@ ALLF = {'success': True, 'failure': True, 'notify': True}
 
 def run_case(case):
     from vlib.prog import World, norm
-    w = World({'handlers': case['handlers']})
+    hs = case['handlers']
+    if not any(h['name'] == 'k' for h in hs):
+        hs = case['handlers'] = hs + [dict(K_HANDLER)]
+    w = World({'handlers': hs})
     problems = []
     subjects = []
     for spec in case['fires']:
@@ -105,7 +115,7 @@ def evaluate(case, w, problems, canary, norm):
         raises = [e[3] for _, e in prods if e[0] == 'PX']
         exp_items = [e[3] if e[0] == 'P' else ['ERR', e[3]] for _, e in prods]
         expected = None if not exp_items else (exp_items[0] if len(exp_items) == 1 else exp_items)
-        v = info['value']
+        v = w.objs[uid].value   # (for call() the Value exists only once the call generator has started)
         observed = norm(v.value)
         counts['VALUE'] += 1
         if observed != expected:
@@ -144,6 +154,10 @@ def evaluate(case, w, problems, canary, norm):
         gens = [h for h in decl if h.get('gen')]
         if gens or len(shapes) > 1:
             nontrivial = True
+        if any(h.get('shape') in ('R0', 'G1f', 'GCv') for h in decl):
+            marks.add('falsy_result')
+        if any(h.get('shape') in ('GCn', 'GCv', 'GWn') for h in decl):
+            marks.add('handler_resumed_from_call')
         if any(h.get('shape') in ('XB', 'GXB1') for h in decl):
             marks.add('base_exception_raised')
         if any(h.get('shape') == 'X' for h in decl) and any(h.get('gen') and not h['shape'].startswith('GX') for h in decl):
@@ -167,6 +181,9 @@ def evaluate(case, w, problems, canary, norm):
 
 
 # ------------------------------------------------------------------------------------------------
+K_HANDLER = {'hid': 900, 'name': 'k', 'prio': 0, 'gen': False, 'body': [['ret', 'k']], 'shape': 'R'}
+
+
 def mk_handlers(name, shapes, hid0=1, extra=None):
     hs = []
     n = len(shapes)
